@@ -144,6 +144,10 @@ class FunTranslator:
         # float(x) -> x
         if isinstance(f, ast.Name) and f.id == "float" and len(n.args) == 1 and not n.keywords:
             return self.rexpr(n.args[0])
+        # np.float64(x) -> x  (a strongly typed scalar; over the reals the identity)
+        if isinstance(f, ast.Attribute) and isinstance(f.value, ast.Name) and (f.value.id, f.attr) == ("np", "float64") \
+                and len(n.args) == 1 and not n.keywords:
+            return self.rexpr(n.args[0])
         # np.full(y.shape, fill_value=v) -> v  (per observation)
         if isinstance(f, ast.Attribute) and isinstance(f.value, ast.Name) and (f.value.id, f.attr) == ("np", "full"):
             if len(n.args) == 1 and len(n.keywords) == 1 and n.keywords[0].arg == "fill_value" \
